@@ -113,6 +113,10 @@ def make_defaults(P, kind, desc, variant=0):
                                  deprecated_since=since)
         d = [P.DocumentedRuleDefault('svc:new', cs, 'new policy', ops,
                                      deprecated_rule=dep)]
+        if variant % 3 == 1:
+            # the old name is STILL a registered policy of its own (a split:
+            # old policy kept), with the very check the deprecation quotes
+            d.append(P.RuleDefault('svc:old', 'role:old'))
     elif kind == 'changed':
         import warnings
         with warnings.catch_warnings():
